@@ -8,7 +8,9 @@
      boolean field of the two operands, then "the function of v, overridden by the function
      of other" -- which is [omerge] read field by field ([merge_shape_sound]);
    - the places of merge.go that move option values around, compared with the list the model
-     (MergeOpts.v) was written against;
+     (MergeOpts.v) was written against (the two `batch.GetHeader().SetValidation(...)` calls
+     give the new batch header the options of the header it is a copy of; header options are
+     not part of the model);
    - the source of the trace-number code of Batch.build / Batch.verify, compared likewise. *)
 From Coq Require Import String List Bool Arith NArith.
 From ACH Require Import MergeOpts MergeOptsFacts.
@@ -144,9 +146,11 @@ Definition expected_flow : list flow_site :=
   ; mkflow "convertToFiles" "for/if" "cond" "sorted.validateOpts != nil"
   ; mkflow "convertToFiles" "for/if" "stmt" "file.SetValidation(sorted.validateOpts)"
   ; mkflow "convertToFiles" "for/for" "stmt" "batch.SetValidation(nextBatch.validateOpts)"
+  ; mkflow "convertToFiles" "for/for" "stmt" "batch.GetHeader().SetValidation(nextBatch.header.validateOpts)"
   ; mkflow "convertToFiles" "for/for/for@overflow/if" "cond" "sorted.validateOpts != nil"
   ; mkflow "convertToFiles" "for/for/for@overflow/if" "stmt" "file.SetValidation(sorted.validateOpts)"
-  ; mkflow "convertToFiles" "for/for/for@overflow" "stmt" "batch.SetValidation(nextBatch.validateOpts)" ].
+  ; mkflow "convertToFiles" "for/for/for@overflow" "stmt" "batch.SetValidation(nextBatch.validateOpts)"
+  ; mkflow "convertToFiles" "for/for/for@overflow" "stmt" "batch.GetHeader().SetValidation(nextBatch.header.validateOpts)" ].
 
 Definition flow_ok (t : list flow_site) : bool := flows_eqb t expected_flow.
 
